@@ -1731,7 +1731,16 @@ def m_saturating(I, st, t, args, site, depth):
             r = lin_add(a, b, 1)
             if r is not None:
                 return [(st, r)]
-    return None
+    # undecided: an opaque result with the facts that hold for unsigned saturating arithmetic
+    res = ("call", "core::num::" + name, site, (tform(a), tform(b)))
+    st.events.append(Event("call", "core::num::" + name, [a, b], site, t.span, tuple(I.ctx), res, t.callee))
+    if oty in INT_BITS and not oty.startswith("i"):
+        if name == "saturating_add":
+            I.assume_cmp(st, "Ge", res, a, True, oty)
+            I.assume_cmp(st, "Ge", res, b, True, oty)
+        elif name == "saturating_sub":
+            I.assume_cmp(st, "Le", res, a, True, oty)
+    return [(st, res)]
 
 
 def m_default(I, st, t, args, site, depth):
